@@ -618,6 +618,12 @@ def run(rep, ctx):
     with rep.guard("R17.7"):
         from .. import handlers
         handlers.check(rep, M, "R17.7", M.reachable([FQ]))
+    rep.rule("R17.8", "the geometry helpers classify rests on (get_dimensionality, get_radii, get_distances, displacement-tensor wrapper, clustering) satisfy their own rules (shared with C09/C10/C19)")
+    with rep.guard("R17.8"):
+        from . import shared as _sh
+        _sh.dimensionality(rep, ctx.model, "R17.8")
+        _sh.radii(rep, ctx.model, "R17.8")
+        _sh.distances(rep, ctx.model, "R17.8")
     rep.floor("R17.7", 7)
     rep.floor("R17.1", 7)
     rep.floor("R17.2", 3)
